@@ -282,3 +282,26 @@ Proof.
       assert ((y0 - 1) / p = j); [|nia].
       unfold j. apply (Z.div_unique (i - 1) p ((y0 - 1) / p) (i - y0)); [lia|nia].
 Qed.
+
+(* ---------- satisfiable iff the object exists ---------- *)
+Corollary count_sat_iff_exists M p :
+  (exists a, irs_hold a (count_ir M p) = true) <-> exists blk, partition_of M (filter blk (count_blocks M p)).
+Proof.
+  split.
+  - intros [a Ha]. apply count_T1 in Ha. exists (fun x => existsb (zlist_eqb x) (count_sel a M p)).
+    assert (NoDup (map fst (count_tab M p))) as Hnd by (unfold count_tab; rewrite number_fst; apply count_blocks_NoDup).
+    pose proof (sel_as_filter zlist_eqb a (count_tab M p) zlist_eqb_spec Hnd) as E.
+    unfold count_tab in E at 3. rewrite number_fst in E. unfold count_sel in *. now rewrite <- E.
+  - intros [blk Hb]. destruct (count_T2 M p blk Hb) as [a [Ha _]]. eauto.
+Qed.
+
+Corollary matching_sat_iff_exists n es : graph_wf n es = true ->
+  ((exists a, irs_hold a (matching_ir n es) = true) <-> exists obj, perfect_matching n (filter obj es)).
+Proof.
+  intros Hwf. split.
+  - intros [a Ha]. apply matching_T1 in Ha; [|assumption]. exists (fun x => existsb (pair_eqb x) (matching_sel a es)).
+    assert (NoDup (map fst (matching_tab es))) as Hnd by (unfold matching_tab; rewrite number_fst; now apply (graph_wf_NoDup n)).
+    pose proof (sel_as_filter pair_eqb a (matching_tab es) pair_eqb_spec Hnd) as E.
+    unfold matching_tab in E at 3. rewrite number_fst in E. unfold matching_sel in *. now rewrite <- E.
+  - intros [obj Hb]. destruct (matching_T2 n es obj Hwf Hb) as [a [Ha _]]. eauto.
+Qed.
